@@ -1,0 +1,82 @@
+//go:build verif
+
+package modeling
+
+// Contracts for the deductive checks in /verif (comment-only; compiled only with -tags verif).
+
+// =====================================================================================================
+// C10 - parallel variants equal their sequential counterparts.
+// Ghost state: visits(k) counts calls of the user callback with index k; forked(k) counts forked
+// workers whose declared footprint contains element k. "Every element is visited exactly once with
+// its own index" is  forall k :: visits(k) == old(visits(k)) + (0 <= k < n ? 1 : 0),  and it is the
+// postcondition of the sequential and of the parallel variant alike.
+// =====================================================================================================
+
+//@ func Topology.IndexSize pure
+//@ func Mesh.PrimitiveCount pure
+//@ func Mesh.Tri pure
+//@ func Mesh.HasFloat1Attribute pure
+//@ func Mesh.HasFloat2Attribute pure
+//@ func Mesh.HasFloat3Attribute pure
+//@ func Mesh.HasFloat4Attribute pure
+//@ func Mesh.requireV1Attribute pure
+//@ func Mesh.requireV2Attribute pure
+//@ func Mesh.requireV3Attribute pure
+//@ func Mesh.requireV4Attribute pure
+
+//@ spec visitedOnce(k int, lo int, hi int) int = (lo <= k && k < hi) ? 1 : 0
+
+// ---- scan helpers: the second parameter is an END index (the loop is  for i := start; i < size) ----
+//@ func Mesh.scanTrisPrimitives
+//@   props C10
+//@   callback f: effect
+//@   modifies ghost visits
+//@   ensures visits_range: forall k int :: visits(k) == old(visits(k)) + visitedOnce(k, start, size)
+//@   loop 1:
+//@     invariant bounds: start <= i && (start <= size ==> i <= size) && (start > size ==> i == start)
+//@     invariant visited: forall k int :: visits(k) == old(visits(k)) + visitedOnce(k, start, i)
+//@ func Mesh.scanPointPrimitives
+//@   props C10
+//@   callback f: effect
+//@   modifies ghost visits
+//@   ensures visits_range: forall k int :: visits(k) == old(visits(k)) + visitedOnce(k, start, size)
+//@   loop 1:
+//@     invariant bounds: start <= i && (start <= size ==> i <= size) && (start > size ==> i == start)
+//@     invariant visited: forall k int :: visits(k) == old(visits(k)) + visitedOnce(k, start, i)
+//@ func Mesh.scanLinePrimitives
+//@   props C10
+//@   callback f: effect
+//@   modifies ghost visits
+//@   ensures visits_range: forall k int :: visits(k) == old(visits(k)) + visitedOnce(k, start, size)
+//@   loop 1:
+//@     invariant bounds: start <= i && (start <= size ==> i <= size) && (start > size ==> i == start)
+//@     invariant visited: forall k int :: visits(k) == old(visits(k)) + visitedOnce(k, start, i)
+
+//@ func Mesh.ScanPrimitives
+//@   props C10
+//@   callback f: effect
+//@   modifies ghost visits
+//@   ensures every_primitive_once: let n = m.PrimitiveCount() in forall k int :: visits(k) == old(visits(k)) + visitedOnce(k, 0, n)
+
+// worker of the parallel primitive scan
+//@ func Mesh.ScanPrimitivesParallelWithPoolSize$1
+//@   props C10
+//@   callback f: effect
+//@   modifies ghost visits
+//@   footprint start .. start + size
+//@   requires 0 <= start && 0 <= size
+//@   ensures visits_range: forall k int :: visits(k) == old(visits(k)) + visitedOnce(k, start, start + size)
+
+//@ func Mesh.ScanPrimitivesParallelWithPoolSize
+//@   props C10
+//@   forkjoin wg
+//@   callback f: effect
+//@   modifies ghost visits
+//@   requires m.PrimitiveCount() >= 0
+//@   requires forall k int :: forked(k) == 0
+//@   ensures every_primitive_once: let n = m.PrimitiveCount() in forall k int :: visits(k) == old(visits(k)) + visitedOnce(k, 0, n)
+//@   loop 1:
+//@     invariant bounds: 0 <= i && i <= size && size >= 2
+//@     invariant partition: workSize >= 0 && workSize * size <= totalWork && totalWork == m.PrimitiveCount()
+//@     invariant visited: forall k int :: visits(k) == old(visits(k)) + visitedOnce(k, 0, (i == size) ? totalWork : workSize * i)
+//@     invariant forked: forall k int :: forked(k) == visitedOnce(k, 0, (i == size) ? totalWork : workSize * i)
